@@ -318,7 +318,7 @@ func (c *Ctx) ContributionRules(prop string) {
 						continue
 					}
 					// below both completeness tests (checked for success returns by C17.O4; here for the store call)
-					lcs := Calls(other, func(x ssa.CallInstruction) bool { return x.Common().StaticCallee() == p.Lookup })
+					lcs := Calls(other, func(x ssa.CallInstruction) bool { return p.isLookup(x.Common().StaticCallee()) })
 					var gen ssa.Value
 					if len(lcs) == 1 {
 						for _, r := range *lcs[0].Value().Referrers() {
